@@ -23,14 +23,38 @@ Prefixes(p) == {SubSeq(p, 1, i) : i \in 1..Len(p)}
 KindIn(fin, p) == IF p = <<>> THEN "dir"
                   ELSE LET S == {i \in DOMAIN fin : fin[i].p = p} IN IF S = {} THEN "none" ELSE fin[CHOOSE i \in S : TRUE].k
 WellFormedFinal(fin) == \A i \in DOMAIN fin : fin[i].k \in {"dir", "file"} => KindIn(fin, Parent(fin[i].p)) = "dir"
-Flat(rs) == UNION {Range(rs[t]) : t \in DOMAIN rs}
+\* per-call results are tuples: <<"ok">>, <<"err">>, <<"ok", TRUE>>, <<"ok", "dir", 0>>, <<"ok", <<names>>>>, <<"ok", <<bytes>>>>, <<"panic">>
+Flat(rs) == UNION {{rs[t][i][1] : i \in DOMAIN rs[t]} : t \in DOMAIN rs}
 FinalCore(fin) == {[p |-> fin[i].p, k |-> fin[i].k, d |-> fin[i].d] : i \in DOMAIN fin}
 Explained(e) == \E i \in DOMAIN e.seq : e.seq[i].results = e.results /\ FinalCore(e.seq[i].final) = FinalCore(e.final)
 Calls(e) == UNION {Range(e.progs[t]) : t \in DOMAIN e.progs}
 Targets(e) == {c.p : c \in {x \in Calls(e) : x.op = "create_dir_all"}}
 
+\* ---- Level-B binding of the MemoryFS model (DRIFT, never a verdict): the sequential outcomes the Conc module
+\* computes for the program must be the ones measured on the code
+TU == {Rec[1].universe[i] : i \in DOMAIN Rec[1].universe}
+C == INSTANCE ConcOps WITH U <- TU
+NodeOf(fin, p) == LET S == {i \in DOMAIN fin : fin[i].p = p} IN
+                  IF S = {} THEN C!None ELSE LET x == fin[CHOOSE i \in S : TRUE] IN
+                  IF x.k = "dir" THEN C!DirN ELSE IF x.k = "file" THEN C!FileN(x.d) ELSE C!None
+InitMap(e) == [p \in TU |-> NodeOf(e.init, p)]
+ResEq(m, h, op) ==      \* model result vs measured result
+  IF op = "read_dir" /\ Len(m) = 2 /\ Len(h) = 2
+  THEN h[1] = "ok" /\ {x[Len(x)] : x \in m[2]} = Range(h[2]) /\ Len(h[2]) = Cardinality(m[2])       \* set of child paths vs list of names
+  ELSE m = h
+ModelModelled(e) == e.cfg = "mem" /\ e.pre_remove = <<>> /\ \A c \in Calls(e) : c.op \in
+   {"create_dir", "cf_open", "ap_open", "close", "remove_file", "remove_dir", "exists", "metadata", "read_dir", "read", "create_dir_all"}
+SeqDrift(e) ==
+  LET T == DOMAIN e.progs
+      prog == [t \in T |-> e.progs[t]]
+      M == C!SeqOutT(T, prog, [t \in T |-> 1], InitMap(e), [t \in T |-> C!NoH], [t \in T |-> <<>>])
+      Match(o, s) == /\ \A t \in T : Len(o[1][t]) = Len(s.results[t]) /\ \A i \in DOMAIN o[1][t] : ResEq(o[1][t][i], s.results[t][i], prog[t][i].op)
+                     /\ \A p \in TU : o[2][p] = NodeOf(s.final, p) IN
+  ~(/\ \A i \in DOMAIN e.seq : \E o \in M : Match(o, e.seq[i])
+    /\ \A o \in M : \E i \in DOMAIN e.seq : Match(o, e.seq[i]))
+
 Bad(e) ==
-  (IF "panic" \in Flat(e.results) \/ \E i \in DOMAIN e.final : e.final[i].k = "panic" THEN {"nopanic"} ELSE {})
+  (IF "panic" \in Flat(e.results) \/ "harness-panic" \in Flat(e.results) \/ \E i \in DOMAIN e.final : e.final[i].k = "panic" THEN {"nopanic"} ELSE {})
   \cup (IF e.stuck THEN {"nodeadlock"} ELSE {})
   \cup (IF e.stuck \/ WellFormedFinal(e.final) THEN {} ELSE {"wellformed"})
   \cup (IF e.prop = "C17" THEN
@@ -41,12 +65,13 @@ Bad(e) ==
 Next ==
   /\ l <= Len(Rec)
   /\ LET e == Rec[l]  bad == Bad(e) IN
-     IF bad = {} THEN TRUE
-     ELSE Report("VIOL", [l |-> l, seg |-> l, secondary |-> FALSE, conjs |-> bad,
-                          sig |-> [conj |-> CHOOSE c \in bad : TRUE, op |-> "history", kind |-> "conc", cfg |-> e.cfg, prop |-> e.prop,
-                                   ops |-> {c.op : c \in Calls(e)},
-                                   threads |-> Len(e.progs), whiteout_prefix |-> e.pre_remove # <<>>,
-                                   results |-> Flat(e.results)]])
+     /\ (IF ModelModelled(e) /\ ~e.stuck /\ SeqDrift(e) THEN Report("DRIFT", [l |-> l, model |-> "Conc", progs |-> e.progs]) ELSE TRUE)
+     /\ (IF bad = {} THEN TRUE
+         ELSE Report("VIOL", [l |-> l, seg |-> l, secondary |-> FALSE, conjs |-> bad,
+                             sig |-> [conj |-> CHOOSE c \in bad : TRUE, op |-> "history", kind |-> "conc", cfg |-> e.cfg, prop |-> e.prop,
+                                      ops |-> {c.op : c \in Calls(e)},
+                                      threads |-> Len(e.progs), whiteout_prefix |-> e.pre_remove # <<>>,
+                                      results |-> Flat(e.results)]]))
   /\ l' = l + 1
 Init == l = 1
 TrSpec == Init /\ [][Next]_l
